@@ -45,7 +45,7 @@ from ..workloads import c09_domain as dom
 
 ID = "C09"
 TIERS = {
-    "quick": {"shards": 8, "budget_s": 30},
+    "quick": {"shards": 8, "budget_s": 20},
     "thorough": {"shards": 16, "budget_s": 360},
 }
 MIN_EVENTS = {"quick": 300000, "thorough": 5000000}
@@ -1339,6 +1339,13 @@ def _run_span_extras(c, case):
             ok, sp = _try(c, "ellipsis-constructor", lambda: ctor(*a, ..., *b), f)
             if ok:
                 _law(c, "ellipsis-constructor==Span", _span_state(sp) == (f, k, k + m, 1), f"{f}", lambda: f"{_span_state(sp)}", "")
+        # not decided (outside the wording): span - period; what is observed goes to the evidence notes only
+        try:
+            sp = irispie.Span(p, _period_from_ordinal(f, k + 3))
+            r = sp - p
+            c.note("observed:span-minus-period:" + ("range-leaves-out-the-last-period" if list(r) == [0, 1, 2] else ("distances-of-all-periods" if list(r) == [0, 1, 2, 3] else "other")))
+        except Exception as exc:
+            c.note(f"observed:span-minus-period:raised:{type(exc).__name__}")
         # encompassing span of forward spans / periods / None
         lo, hi = min(k, k + m), max(k, k + m)
         args = [irispie.Span(_period_from_ordinal(f, lo), _period_from_ordinal(f, hi)), None, _period_from_ordinal(f, k + n),
@@ -1397,8 +1404,9 @@ def shard(c):
     # ---- 0. directed
     for case in DIRECTED:
         _dispatch(c, case)
-    c.sample(DIRECTED[0])
-    c.sample(DIRECTED[-1])
+    if c.shard == 0:
+        c.sample(DIRECTED[0])
+        c.sample(DIRECTED[-1])
 
     # ---- 1. mixed frequencies: every ordered pair of distinct frequencies (sharded)
     for i, case in enumerate(_mixed_cases()):
@@ -1412,6 +1420,8 @@ def shard(c):
     for f, y, s in dom.enumerate_domain(c.tier, c.shard, c.nshards):
         _run_period(c, {"kind": "period", "f": f, "y": y, "s": s})
         n_enum += 1
+        if n_enum == 40 + 7 * c.shard:
+            c.sample({"kind": "period", "f": f, "y": y, "s": s, "offsets": dom.offsets_for(f)})
     c.extra["exhaustive_periods_enumerated"] = n_enum
     if c.shard == 0:
         c.extra["exhaustive_periods_in_domain"] = dom.domain_size(c.tier)
